@@ -3,8 +3,8 @@
 //! `iterate_ops` of the real `FastOps`, after random valid mutation histories.
 //!
 //! One PRNG drives HISTORIES of public mutations (single-slot `mutate_p` through a filled cursor,
-//! `mutate_ps`, `mutate_ops`, `set_cutoff`, `mutate_subsection` under a Varlist cursor built by the
-//! hint fill) on a real container.  After every mutation a batch of stateless CASE lines is printed:
+//! `mutate_ps`, `mutate_ops`, `set_cutoff`, `mutate_subsection` and `mutate_subsection_ops` (heap branch)
+//! under a Varlist cursor built by the hint fill) on a real container.  After every mutation a batch of stateless CASE lines is printed:
 //!   hintfill <nvars> <slots> <vars> <p:hints>/<p:hints>…   | <last_p> <items> <unfilled> <eq|ne|NA>
 //!   hintsub  <nvars> <slots> <p> <vars> <hints> <state> <sub0> | <bits> <eq|ne|NA>
 //!   iterps   <nvars> <slots> <ps> <pe> <stop>              | <st> <log> <st> <log> <eq|ne|NA>
@@ -277,20 +277,28 @@ fn mutate(g: &mut SplitMix64, h: &Hist, c: &mut FastOps, st: &mut Stats) {
             let b = g.below(len as u64 + 1) as usize;
             let (ps, pe) = if a <= b { (a, b) } else { (b, a) };
             let hints = valid_hints(g, &s, &vars, ps);
-            let acts: Vec<Act> = (ps..pe)
+            let is_ops = g.coin();
+            let acts: Vec<Act> = (ps..=pe)
                 .map(|p| {
-                    let elig = s[p].as_ref().map(|o| o.vars.iter().all(|v| vars.contains(v))).unwrap_or(true);
-                    if elig {
-                        act_for(g, h, s[p].as_ref(), &vars, true, dense)
-                    } else {
+                    let old = if p < len { s[p].as_ref() } else { None };
+                    let elig = old.map(|o| o.vars.iter().all(|v| vars.contains(v))).unwrap_or(true);
+                    if !elig || (is_ops && old.is_none()) || (!is_ops && p == pe) {
                         Act::K
+                    } else {
+                        act_for(g, h, old, &vars, true, dense)
                     }
                 })
                 .collect();
             let mut args = c.get_empty_args(SubvarAccess::Varlist(&vars));
             c.fill_args_at_p_with_hint(ps, &mut args, &vars, hints.iter().cloned());
-            c.mutate_subsection(ps, pe, 0usize, |_, _op, i| (acts[i].ret(), i + 1), Some(args));
-            bump(st, "mut_subps_hint");
+            if is_ops {
+                // the heap branch of mutate_subsection_ops (pend inclusive)
+                c.mutate_subsection_ops(ps, pe, (), |_, _op, p, t| (acts[p - ps].ret(), t), Some(args));
+                bump(st, "mut_subops_hint_heap");
+            } else {
+                c.mutate_subsection(ps, pe, 0usize, |_, _op, i| (acts[i].ret(), i + 1), Some(args));
+                bump(st, "mut_subps_hint");
+            }
         }
     }
 }
